@@ -552,7 +552,8 @@ class Purge:
             return None
         # in Rc::drop the purge belongs to the path on which the object is dead; a handle-consuming API unlinks the
         # object while it still holds the sole strong reference
-        if (self.entry_kind == "rc_drop" and not (st.strong(self.self_box) <= DEAD)) or st.empty(self.self_box) is True:
+        # (or on which this handle is the last one: strong == 1 seen, the count about to be given up)
+        if (self.entry_kind == "rc_drop" and not (st.strong(self.self_box) <= DEAD or st.strong(self.self_box) == frozenset("O"))) or st.empty(self.self_box) is True:
             return None
         api = self.entry_kind != "rc_drop"
         if v == "1":
@@ -668,6 +669,9 @@ class Purge:
         b = ev.box
         if b is None or is_elem_box(b) or self.entry_kind == "rc_drop":
             return None
+        from expr import is_fresh_alloc
+        if is_fresh_alloc(b):
+            return None      # the untouched table of an object under construction: nobody records that object yet
         eng.obl("SYM-3", "discard", ev.b)
         if st.empty(b) is not True and ("purged", b) not in st.flags:
             if not (b == self.self_box and self._raise_purge_defects(eng, st, ev.b)):
